@@ -523,8 +523,16 @@ func (c *caseRun) usable(op, pair, oldType string, sl *slot, det func() map[stri
 			break
 		}
 		if !ok {
+			if in.tmOldRev {
+				// a header of the previous revision: the statement does not say such a header must be taken
+				r.Count("updates/previous-revision-header-refused-after-revision-upgrade", 1)
+				break
+			}
 			updErr = log
 			break
+		}
+		if in.tmOldRev {
+			r.Count("updates/previous-revision-header-accepted-after-revision-upgrade", 1)
 		}
 		done++
 		// the set in force may have grown: the delay is counted with the current one
